@@ -274,6 +274,11 @@ pub fn event(ev: u32, dg: u64) -> (u32, bool) {
             g.push(me, Ph::Arrive, ev, occ, dg);
             g.push(me, Ph::Pass, ev, occ, dg);
         }
+        Mode::Free => {
+            let e = g.free_ent();
+            g.push(e, Ph::Arrive, ev, occ, dg);
+            g.push(e, Ph::Pass, ev, occ, dg);
+        }
         _ => {
             g.push(0, Ph::Arrive, ev, occ, dg);
             g.push(0, Ph::Pass, ev, occ, dg);
